@@ -35,7 +35,7 @@ static unsigned long long c11_maskdigest(const unsigned char *a, const unsigned 
    prefill; result = digest of the write mask (1 = byte was written) over the documented size */
 static int c11_g11d(toks_t *t)
 {
-  c03_job j; int pf = (int)tl(t, 5), sfi = (int)tl(t, 6), pad = (int)tl(t, 7), bu = (int)tl(t, 8), fe = (int)tl(t, 9), crop = (int)tl(t, 10), prec = (int)tl(t, 11), err = 0, nsf, sw, sh, ps, run;
+  c03_job j; int pf = (int)tl(t, 5), sfi = (int)tl(t, 6), pad = (int)tl(t, 7), bu = (int)tl(t, 8), fe = (int)tl(t, 9), crop = (int)tl(t, 10), prec = (int)tl(t, 11), fl = (int)tl(t, 12), err = 0, nsf, sw, sh, ps, run;
   unsigned char *jp = NULL; unsigned long jn = 0; tjscalingfactor *sf = tj3GetScalingFactors(&nsf), f; c11_guard g[2]; size_t pitch, rowb, doc, ssz = prec <= 8 ? 1 : 2, nw = 0; unsigned char fill[2] = { 0x5A, 0xC3 };
   tjregion cr = { 0, 0, 0, 0 }; int rc[2] = { 0, 0 };
   memset(&j, 0, sizeof(j)); memset(g, 0, sizeof(g));
@@ -53,7 +53,7 @@ static int c11_g11d(toks_t *t)
   }
   for (run = 0; run < 2; run++) {
     tjhandle hd = tj3Init(TJINIT_DECOMPRESS); int ow = sw, oh = sh;
-    tj3Set(hd, TJPARAM_BOTTOMUP, bu);
+    tj3Set(hd, TJPARAM_BOTTOMUP, bu); tj3Set(hd, TJPARAM_FASTUPSAMPLE, fl & 1); tj3Set(hd, TJPARAM_FASTDCT, (fl >> 1) & 1);
     if (tj3DecompressHeader(hd, jp, jn) < 0) { printf("R err header\n"); tj3Destroy(hd); free(jp); c11_free(&g[0]); return 1; }
     tj3SetScalingFactor(hd, f);
     if (crop && prec == 8 && tj3SetCroppingRegion(hd, cr) == 0) { ow = cr.w ? cr.w : sw - cr.x; oh = cr.h ? cr.h : sh - cr.y; }
